@@ -43,9 +43,18 @@ FlowSign(ev, e) ==
                                        AttemptOp <- LAMBDA dd, ee, kk : C!S!AttemptInjected(dd, ee, kk, ev.x1)
        IN FX!Sign(ev.priv, e, ev.script)
   ELSE F!Sign(ev.priv, e, ev.script)
+\* bytes the call took from the source: the per-call log, or the executor's total when the log was too long to keep
+Consumed(ev) == IF Len(ev.reads) = 0 /\ "reads_total" \in DOMAIN ev THEN ev.reads_total ELSE R!Delivered(ev.reads)
+\* run {d, n}: n copies of ONE candidate delivered in front of the script.  A candidate's verdict is a function of
+\* (key, digest, candidate), so a rejected candidate is rejected n times: the loop's outcome is its outcome on the
+\* remaining script, with n more candidates tried and 32 n more bytes consumed (a run whose candidate is NOT rejected
+\* ends the call at its first copy).  This keeps streams with tens of thousands of rejected candidates checkable.
+RunN(ev) == IF "run" \in DOMAIN ev THEN ev.run.n ELSE 0
 SignOK(ev, e) ==
-  LET f == FlowSign(ev, e)
-      consumed == R!Delivered(ev.reads)
+  LET runRejected == RunN(ev) > 0 /\ C!S!Attempt(ev.priv, e, ev.run.d).skip
+      f == IF RunN(ev) > 0 /\ ~runRejected THEN F!Sign(ev.priv, e, <<[d |-> ev.run.d, err |-> ""]>>) ELSE FlowSign(ev, e)
+      extra == IF runRejected THEN 32 * RunN(ev) ELSE 0
+      consumed == Consumed(ev) - extra
   IN IF ~KeyOK(ev.priv)
      THEN \* refused keys: error, nothing returned, nothing drawn.  (A longer-than-32-byte
           \* encoding of a valid value may be refused or honoured.)
@@ -99,8 +108,9 @@ Expect(s, ev) ==
     [] ev.op = "sm2.genkey" ->
          IF ev.nilreader
          THEN [st |-> s, ok |-> ev.panic = "" /\ ev.err # "" /\ ev.nil_out, why |-> "genkey: nil reader"]
-         ELSE LET g == F!KeyGen(ev.script)
-                  consumed == R!Delivered(ev.reads)
+         ELSE LET runRejected == RunN(ev) > 0 /\ ~ValidNum(ev.run.d)
+                  g == IF RunN(ev) > 0 /\ ~runRejected THEN F!KeyGen(<<[d |-> ev.run.d, err |-> ""]>>) ELSE F!KeyGen(ev.script)
+                  consumed == Consumed(ev) - (IF runRejected THEN 32 * RunN(ev) ELSE 0)
                   okc == consumed = R!Delivered(g.log)
                   okv == IF g.kind = "key"
                          THEN LET pt == C!S!Pub(g.d)
